@@ -14,12 +14,21 @@
                       declared probability up to the resolution of the draw and
                       of the f32 accumulation.
     [C06_threshold_exact] thr S is the exact ceiling: k/2^23 < S <-> k < thr S.
+    [C06_share]       for every validated vector (any number of targets) the
+                      number of draws selecting entry j, thr S_j - thr S_(j-1),
+                      differs from p_j * 2^23 by less than 2: the declared
+                      probability up to the resolution of the draw (only the
+                      single f32 addition S_(j-1) + p_j contributes a rounding
+                      error, so the bound does not grow with the vector);
+    [C06_draws]       and that count is literally the set of draws selecting
+                      the entry's target: an interval inside [0, 2^23).
     [C06_one]         a probability-1 transition is always taken.
     [C06_none]        no declared transitions: no move and no draw consumed. *)
 From Coq Require Import Reals.
 From Flocq Require Import Core.Core IEEE754.BinarySingleNaN.
 From MB Require Import Model.Framework Model.Validate.
 From MB Require Import Model.Thresholds Proofs.SampleState.
+From MB Require Proofs.SampleShare.
 Open Scope Z_scope.
 
 Theorem C06_thresholds : forall n v (k : N),
@@ -39,6 +48,24 @@ Theorem C06_draw_exact : forall k : N, (k < 2 ^ 24)%N ->
   B2R (f32_of_k k) = (IZR (Z.of_N k) * / IZR (2 ^ 23))%R /\ is_finite (f32_of_k k) = true.
 Proof. exact f32_of_k_exact. Qed.
 Print Assumptions C06_draw_exact.
+
+
+Theorem C06_share : forall n v, validate_vector n v [] f32_zero = true ->
+  forall j t p, nth_error v j = Some (t, p) ->
+    let ss := f32_zero :: sums v f32_zero in
+    forall s_prev s_next, nth_error ss j = Some s_prev -> nth_error ss (S j) = Some s_next ->
+    (Rabs (IZR (SampleShare.count_between s_prev s_next) - B2R (f32_of_bits p) * IZR (2 ^ 23)) < 2)%R.
+Proof. exact SampleShare.share_vector. Qed.
+Print Assumptions C06_share.
+
+Theorem C06_draws : forall n v, validate_vector n v [] f32_zero = true ->
+  forall j t p, nth_error v j = Some (t, p) ->
+    let ss := f32_zero :: sums v f32_zero in
+    forall s_prev s_next, nth_error ss j = Some s_prev -> nth_error ss (S j) = Some s_next ->
+    forall k : N, (k < 2 ^ 24)%N ->
+      (pick_trans v f32_zero (f32_of_k k) = Some t <-> thr s_prev <= Z.of_N k < thr s_next).
+Proof. exact SampleShare.share_draws. Qed.
+Print Assumptions C06_draws.
 
 Theorem C06_one : forall t (k : N), (k < 2 ^ 23)%N ->
   pick_trans [(t, 1065353216%N)] f32_zero (f32_of_k k) = Some t.
